@@ -615,7 +615,7 @@ class Engine:
         if isinstance(it, (tuple, list, range, str, bytes, dict)) or hasattr(it, '__iter__'):
             if not isinstance(it, (tuple, list, range, str, bytes, dict, zip, enumerate, reversed)) and not isinstance(it, types.GeneratorType):
                 # unknown iterable type: only accept real builtin containers
-                if not isinstance(it, (set, frozenset, bytearray)):
+                if not isinstance(it, (set, frozenset, bytearray, type({}.items()), type({}.keys()), type({}.values()))):
                     raise Refuse('iteration over ' + type(it).__name__)
             broke = False
             for x in it:
